@@ -101,7 +101,7 @@ def load_inst(t, form, tier):
                 '__CPROVER_assigns(g_verifier_arg, g_verifier_calls);\n' % (app, app, eqv('g_verifier_arg', 'v', t))).replace('$STUBRET', '__CPROVER_return_value')
         h += '  int in_vret; g_verifier_ret = in_vret; g_verifier_calls = 0;\n  int r = $ROOT((void *)&cell, verifier_stub);\n'
         params, expr, rn = 'tainted_volatile<%s, vsbx>& c, int (*verifier)(%s)' % (t, t), 'c.copy_and_verify(verifier);', 'copy_and_verify'
-        opts = {'param_fn_stubs': {'verifier': 'verifier_stub'}}
+        opts = {'param_fn_stubs': {'*': 'verifier_stub'}}
         extra_replace = ['verifier_stub']
     return Inst('c07_load_%s_%s' % (form, t.replace(' ', '_')), params, expr, cl, h, leaves=['dynamic_check'], prop=PROP, root_name=rn, tier=tier,
                 pre=pre, root_pick=pick, opts=opts, extra_replace=extra_replace, note='load of %s from a %d-byte guest cell via %s' % (t, gs, form))
@@ -138,8 +138,8 @@ def array_inst(dirn, t, n, tier):
         params, expr, rn, pick = 'tainted_volatile<%s[%d], vsbx>& c, tainted<%s[%d], vsbx>& v' % (t, n, t, n), 'c = v;', 'operator=', None
         if not same_repr:
             lcs = {('convert_type_fundamental_or_array', 0):
-                   '__CPROVER_assigns(i, __CPROVER_object_whole($0))\n__CPROVER_loop_invariant(i <= %d)\n'
-                   '__CPROVER_loop_invariant(g_w < i ==> MI($0->_M_elems[g_w]) == MI($1->_M_elems[g_w]))\n__CPROVER_decreases(%d - i)' % (n, n)}
+                   '__CPROVER_assigns($LV, __CPROVER_object_whole($0))\n__CPROVER_loop_invariant($LV <= %d)\n'
+                   '__CPROVER_loop_invariant(g_w < $LV ==> MI($0->_M_elems[g_w]) == MI($1->_M_elems[g_w]))\n__CPROVER_decreases(%d - $LV)' % (n, n)}
     else:
         cl = [('cell_is_guest_footprint', '__CPROVER_requires(__CPROVER_r_ok($0, %d) && sizeof(struct %s) == %d && g_w < %d)' % (gs, TVA, gs, n)),
               ('element_decoded', '__CPROVER_ensures(%s)' % eqv('$ret.data._M_elems[g_w]', '$0->data._M_elems[g_w]', t)),
@@ -150,8 +150,8 @@ def array_inst(dirn, t, n, tier):
         pick = lambda tu, fn: find_func(tu, 'tainted', 'rlbox::tainted<%s[%d], rlbox::vsbx>' % (t, n), lambda f, rn_: 'tainted_volatile' in f['type']['qualType'])
         if not same_repr:
             lcs = {('convert_type_fundamental_or_array', 0):
-                   '__CPROVER_assigns(i, __CPROVER_object_whole($0))\n__CPROVER_loop_invariant(i <= %d)\n'
-                   '__CPROVER_loop_invariant(g_w < i ==> MI($0->_M_elems[g_w]) == MI($1->_M_elems[g_w]))\n__CPROVER_decreases(%d - i)' % (n, n)}
+                   '__CPROVER_assigns($LV, __CPROVER_object_whole($0))\n__CPROVER_loop_invariant($LV <= %d)\n'
+                   '__CPROVER_loop_invariant(g_w < $LV ==> MI($0->_M_elems[g_w]) == MI($1->_M_elems[g_w]))\n__CPROVER_decreases(%d - $LV)' % (n, n)}
     return Inst('c07_array_%s_%s_%d' % (dirn, t.replace(' ', '_'), n), params, expr, cl, h, leaves=['dynamic_check'], prop=PROP, root_name=rn, tier=tier,
                 pre=PRE_GHOST + ' unsigned long g_w;\n' + MEMCPY_OBJ, root_pick=pick, loop_contracts=lcs, extra_replace=[],
                 note='%s of %s[%d]: %s' % (dirn, t, n, 'same representation: memcpy branch' if same_repr else 'element-wise conversion loop (loop contract)'))
